@@ -237,6 +237,14 @@ def check_conv(repo_src, rnd):
 
 def check_scripts(repo_src, rnd):
     out = []; n = 0
+    # the context built by create_context!
+    mc = [('x', 'Number(5)'), ('s', 'String("str")'), ('b', 'Bool(true)'), ('l', 'List([Number(1), Number(2)])'), ('f()', 'Number(40)'), ('f(1, 2)', 'Number(42)'), ('f', 'Number(40)'), ('y', 'Number(2.5)'), ('x + y', 'Number(7.5)'), ('nope', 'None'), ('[x, s, b]', 'List([Number(5), String("str"), Bool(true)])')]
+    res = run_cases([dict(m='macroctx', s=s) for s, _ in mc], repo_src)
+    n += len(mc)
+    for (s, exp), r in zip(mc, res):
+        case = dict(m='macroctx', s=s)
+        if r is None or r.get('panic'): out.append(_disc('script', ['C06', 'C08'], case, exp, 'panic/abort', 'evaluation in a create_context! context did not return'))
+        elif r.get('val') != exp: out.append(_disc('script', ['C06', 'C08'], case, exp, r.get('val') or ('Err(%s)' % r.get('err')), 'a context built by create_context! does not hold the bindings as written'))
     for sc in corpus.SCRIPTS + corpus.adjacency_scripts():
         steps = []
         for (m, s, extra) in sc['steps']:
@@ -267,7 +275,7 @@ def check_scripts(repo_src, rnd):
     return out, n
 
 CATS = {'parse': check_parse, 'exec': check_exec, 'conv': check_conv, 'script': check_scripts}
-PROP_CATS = {'C01': ['parse'], 'C02': ['parse', 'script'], 'C03': ['exec'], 'C04': ['exec', 'conv'], 'C05': ['parse'], 'C06': ['exec'], 'C07': ['exec'], 'C08': ['script', 'exec'],
+PROP_CATS = {'C01': ['parse'], 'C02': ['parse', 'script'], 'C03': ['exec'], 'C04': ['exec', 'conv'], 'C05': ['parse'], 'C06': ['exec', 'script'], 'C07': ['exec'], 'C08': ['script', 'exec'],
              'C09': ['exec', 'parse'], 'C10': ['parse', 'script'], 'C12': ['parse'], 'C17': ['conv'], 'C18': ['parse']}
 _cache = {}
 def run_category(cat, repo_src, seed=0):
